@@ -62,13 +62,14 @@ func main() {
 		panicsOK := fs.Bool("panics-ok", false, "target panics are not violations")
 		wall := fs.Int("wall", 3600, "wall-clock budget in seconds")
 		prof := fs.String("cpuprofile", "", "write a CPU profile")
+		enum := fs.String("enumerate", "", "functions whose integer results are enumerated by forking")
 		fs.Parse(os.Args[2:])
 		if *prof != "" {
 			f, _ := os.Create(*prof)
 			pprof.StartCPUProfile(f)
 			defer pprof.StopCPUProfile()
 		}
-		rc := runDev(splitList(*files), *pkg, *run, *mode, *maxPaths, *fuel, *obligMs, parseParams(*params), *replay, *panicsOK, *wall)
+		rc := runDev(splitList(*files), *pkg, *run, *mode, *maxPaths, *fuel, *obligMs, parseParams(*params), *replay, *panicsOK, *wall, splitList(*enum))
 		pprof.StopCPUProfile()
 		os.Exit(rc)
 	case "selftest":
